@@ -265,7 +265,7 @@ class DefaultWorker(Worker):
             os.environ[k] = v
 
         # ----------------------------------------------------------------------
-        def _worker_proc(res_lock):
+        def _worker_proc(res_lock, res_done):
             # FIXME: do we still need this thread?
 
             import setproctitle
@@ -306,6 +306,7 @@ class DefaultWorker(Worker):
 
             with res_lock:
                 self._result_queue.put(res)
+                res_done.set()
         # ----------------------------------------------------------------------
 
 
@@ -317,13 +318,17 @@ class DefaultWorker(Worker):
           #                 task['uid'], task['pid'], tout)
 
             res_lock = mp.Lock()
-            worker_proc = mp.Process(target=_worker_proc, args=(res_lock,))
+            res_done = mp.Event()
+            worker_proc = mp.Process(target=_worker_proc,
+                                     args=(res_lock, res_done))
             worker_proc.daemon = True
             worker_proc.start()
             worker_proc.join(timeout=tout)
 
             with res_lock:
-                if worker_proc.is_alive():
+                # the process may have queued its result but not yet exited:
+                # only report a timeout if there is no result
+                if not res_done.is_set():
                     worker_proc.terminate()
                     worker_proc.join()
                     out = None
